@@ -133,6 +133,35 @@ int main(int argc, char** argv) {
   // quaternion: qua(w, x, y, z), qua(s, vec3), wxyz(); results read by name (w,x,y,z)
   add_unit_lite("qctor_wxyz", 4, 4, [](auto const* x, auto* o) { using T = TY(o); stq(o, glm::qua<T, glm::defaultp>::wxyz(x[0], x[1], x[2], x[3])); });
   add_unit_lite("qctor_sv", 4, 4, [](auto const* x, auto* o) { using T = TY(o); stq(o, glm::qua<T, glm::defaultp>(x[0], V3<T>(x[1], x[2], x[3]))); });
+  // cross-type conversions (the tracer cannot follow a change of element type): vec<L,B>(vec<L,A>), mat<C,R,B>(mat<C,R,A>) and mixed-type
+  // argument lists are static_cast per component.  Exploration on the real code; values are small integers plus a fraction, cast through A first.
+  add_prop("p_convert", 4, 0.0, 0.0, [](auto const* x) { using T = TY(x); int bad = 0;
+    double v[4]; for (int i = 0; i < 4; ++i) v[i] = std::fabs((double)x[i]) * 40.0 + 0.25 * i;       // 0 .. 81: inside every target type, non-negative
+    auto each_pair = [&](auto a0, auto b0) { using A = decltype(a0); using B = decltype(b0);
+      A s[4]; for (int i = 0; i < 4; ++i) s[i] = static_cast<A>(v[i]);
+      glm::vec<4, A> a4(s[0], s[1], s[2], s[3]); glm::vec<3, A> a3(s[0], s[1], s[2]); glm::vec<2, A> a2(s[0], s[1]); glm::vec<1, A> a1(s[0]);
+      glm::vec<4, B> b4(a4); glm::vec<3, B> b3(a3); glm::vec<2, B> b2(a2); glm::vec<1, B> b1(a1);
+      for (int i = 0; i < 4; ++i) bad += !(b4[i] == static_cast<B>(s[i])); for (int i = 0; i < 3; ++i) bad += !(b3[i] == static_cast<B>(s[i]));
+      for (int i = 0; i < 2; ++i) bad += !(b2[i] == static_cast<B>(s[i])); bad += !(b1[0] == static_cast<B>(s[0]));
+      glm::vec<3, B> t3(a4); glm::vec<2, B> t2(a3); for (int i = 0; i < 3; ++i) bad += !(t3[i] == static_cast<B>(s[i])); for (int i = 0; i < 2; ++i) bad += !(t2[i] == static_cast<B>(s[i]));   // truncation
+      glm::vec<4, B> m1(s[0], a2, s[3]); bad += !(m1[0] == static_cast<B>(s[0]) && m1[1] == static_cast<B>(s[0]) && m1[2] == static_cast<B>(s[1]) && m1[3] == static_cast<B>(s[3]));
+      glm::vec<4, B> m2(a3, s[3]); bad += !(m2[2] == static_cast<B>(s[2]) && m2[3] == static_cast<B>(s[3]));
+      glm::vec<3, B> m3(a1, s[1], a1); bad += !(m3[0] == static_cast<B>(s[0]) && m3[1] == static_cast<B>(s[1]) && m3[2] == static_cast<B>(s[0]));
+      glm::vec<4, B> bc(a1); for (int i = 0; i < 4; ++i) bad += !(bc[i] == static_cast<B>(s[0]));                                                              // vec1 broadcast
+    };
+    auto each_a = [&](auto a0) { each_pair(a0, float()); each_pair(a0, double()); each_pair(a0, int()); each_pair(a0, (unsigned)0); each_pair(a0, (signed char)0);
+      each_pair(a0, (unsigned char)0); each_pair(a0, (short)0); each_pair(a0, (unsigned short)0); each_pair(a0, (long long)0); each_pair(a0, (unsigned long long)0); };
+    each_a(float()); each_a(double()); each_a(int()); each_a((unsigned)0); each_a((signed char)0); each_a((unsigned char)0); each_a((short)0); each_a((unsigned short)0); each_a((long long)0); each_a((unsigned long long)0);
+    auto each_mat = [&](auto a0, auto b0) { using A = decltype(a0); using B = decltype(b0);
+      glm::mat<4, 4, A> m; for (int c = 0; c < 4; ++c) for (int r = 0; r < 4; ++r) m[c][r] = static_cast<A>(v[(c + r) % 4] + c * 4 + r);
+      glm::mat<4, 4, B> n(m); for (int c = 0; c < 4; ++c) for (int r = 0; r < 4; ++r) bad += !(n[c][r] == static_cast<B>(m[c][r]));
+      glm::mat<2, 3, B> n23((glm::mat<2, 3, A>(m))); for (int c = 0; c < 2; ++c) for (int r = 0; r < 3; ++r) bad += !(n23[c][r] == static_cast<B>(m[c][r]));
+      glm::mat<3, 2, B> n32((glm::mat<3, 2, A>(m))); for (int c = 0; c < 3; ++c) for (int r = 0; r < 2; ++r) bad += !(n32[c][r] == static_cast<B>(m[c][r]));
+      glm::mat<3, 3, B> n33((glm::mat<3, 3, A>(m))); for (int c = 0; c < 3; ++c) for (int r = 0; r < 3; ++r) bad += !(n33[c][r] == static_cast<B>(m[c][r]));
+      glm::mat<4, 3, B> n43((glm::mat<4, 3, A>(m))); for (int c = 0; c < 4; ++c) for (int r = 0; r < 3; ++r) bad += !(n43[c][r] == static_cast<B>(m[c][r]));
+    };
+    each_mat(float(), double()); each_mat(double(), float()); each_mat(float(), int()); each_mat(int(), float()); each_mat(double(), (unsigned)0); each_mat((unsigned)0, double());
+    return (T)bad; });
   // matrices from scalars (column-major fill) and from columns
   reg_mat17<2, 2>(); reg_mat17<2, 3>(); reg_mat17<2, 4>(); reg_mat17<3, 2>(); reg_mat17<3, 3>(); reg_mat17<3, 4>(); reg_mat17<4, 2>(); reg_mat17<4, 3>(); reg_mat17<4, 4>();
 # endif
